@@ -46,6 +46,9 @@ Record mstate := {
   gone : list conn;                                     (* clients that closed their socket: they see no further frame *)
   mqsubs : list rid;                                    (* resources with a standing event subscription *)
   thr : nat;                                            (* resetThrottle of the gateway under test (0 = unlimited) *)
+  stale : list rid;                                     (* resources whose reset re-fetch failed (service fault): events that arrived
+                                                           during the re-fetch are lost with it, so convergence is not owed until
+                                                           the next successful re-fetch *)
   legacy : list conn;                                   (* connections that negotiated a protocol version before 1.2.1 *)
   single : nat;                                         (* system resets seen since the last quiescent point *)
   pgets : list (nat * rid);                             (* get requests still unanswered (request number, resource) *)
@@ -62,34 +65,34 @@ Record mstate := {
 }.
 
 Definition mstate0 : mstate :=
-  {| clients := []; reqs := []; stream := []; ptrs := []; viols := []; pos := 0; gone := []; mqsubs := []; fetched := []; connsubs := []; settled_gone := []; accreq := []; lastacc := []; reqpos := []; resetting := []; due := []; task_open := None; qexpect := []; pgets := []; thr := 0; single := 0; legacy := [] |}.
+  {| clients := []; reqs := []; stream := []; ptrs := []; viols := []; pos := 0; gone := []; mqsubs := []; fetched := []; connsubs := []; settled_gone := []; accreq := []; lastacc := []; reqpos := []; resetting := []; due := []; task_open := None; qexpect := []; pgets := []; thr := 0; single := 0; legacy := []; stale := [] |}.
 
 Definition get_client (st : mstate) (c : conn) : client :=
   match lookup c (clients st) with Some cl => cl | None => client0 end.
 
 Definition set_client (st : mstate) (c : conn) (cl : client) : mstate :=
-  {| clients := set_k c cl (clients st); reqs := reqs st; stream := stream st; ptrs := ptrs st; viols := viols st; pos := pos st; gone := gone st; mqsubs := mqsubs st; fetched := fetched st; connsubs := connsubs st; settled_gone := settled_gone st; accreq := accreq st; lastacc := lastacc st; reqpos := reqpos st; resetting := resetting st; due := due st; task_open := task_open st; qexpect := qexpect st; pgets := pgets st; thr := thr st; single := single st; legacy := legacy st |}.
+  {| clients := set_k c cl (clients st); reqs := reqs st; stream := stream st; ptrs := ptrs st; viols := viols st; pos := pos st; gone := gone st; mqsubs := mqsubs st; fetched := fetched st; connsubs := connsubs st; settled_gone := settled_gone st; accreq := accreq st; lastacc := lastacc st; reqpos := reqpos st; resetting := resetting st; due := due st; task_open := task_open st; qexpect := qexpect st; pgets := pgets st; thr := thr st; single := single st; legacy := legacy st; stale := stale st |}.
 
 Definition add_viol (st : mstate) (k : vkind) (c : conn) (r : rid) : mstate :=
   {| clients := clients st; reqs := reqs st; stream := stream st; ptrs := ptrs st;
-     viols := viols st ++ [{| v_kind := k; v_c := c; v_r := r; v_pos := pos st |}]; pos := pos st; gone := gone st; mqsubs := mqsubs st; fetched := fetched st; connsubs := connsubs st; settled_gone := settled_gone st; accreq := accreq st; lastacc := lastacc st; reqpos := reqpos st; resetting := resetting st; due := due st; task_open := task_open st; qexpect := qexpect st; pgets := pgets st; thr := thr st; single := single st; legacy := legacy st |}.
+     viols := viols st ++ [{| v_kind := k; v_c := c; v_r := r; v_pos := pos st |}]; pos := pos st; gone := gone st; mqsubs := mqsubs st; fetched := fetched st; connsubs := connsubs st; settled_gone := settled_gone st; accreq := accreq st; lastacc := lastacc st; reqpos := reqpos st; resetting := resetting st; due := due st; task_open := task_open st; qexpect := qexpect st; pgets := pgets st; thr := thr st; single := single st; legacy := legacy st; stale := stale st |}.
 
 Definition set_reqs (st : mstate) (q : list (conn * (nat * (rkind * rid * Z)))) : mstate :=
-  {| clients := clients st; reqs := q; stream := stream st; ptrs := ptrs st; viols := viols st; pos := pos st; gone := gone st; mqsubs := mqsubs st; fetched := fetched st; connsubs := connsubs st; settled_gone := settled_gone st; accreq := accreq st; lastacc := lastacc st; reqpos := reqpos st; resetting := resetting st; due := due st; task_open := task_open st; qexpect := qexpect st; pgets := pgets st; thr := thr st; single := single st; legacy := legacy st |}.
+  {| clients := clients st; reqs := q; stream := stream st; ptrs := ptrs st; viols := viols st; pos := pos st; gone := gone st; mqsubs := mqsubs st; fetched := fetched st; connsubs := connsubs st; settled_gone := settled_gone st; accreq := accreq st; lastacc := lastacc st; reqpos := reqpos st; resetting := resetting st; due := due st; task_open := task_open st; qexpect := qexpect st; pgets := pgets st; thr := thr st; single := single st; legacy := legacy st; stale := stale st |}.
 Definition set_ptrs (st : mstate) (p : list (conn * (rid * list nat))) : mstate :=
-  {| clients := clients st; reqs := reqs st; stream := stream st; ptrs := p; viols := viols st; pos := pos st; gone := gone st; mqsubs := mqsubs st; fetched := fetched st; connsubs := connsubs st; settled_gone := settled_gone st; accreq := accreq st; lastacc := lastacc st; reqpos := reqpos st; resetting := resetting st; due := due st; task_open := task_open st; qexpect := qexpect st; pgets := pgets st; thr := thr st; single := single st; legacy := legacy st |}.
+  {| clients := clients st; reqs := reqs st; stream := stream st; ptrs := p; viols := viols st; pos := pos st; gone := gone st; mqsubs := mqsubs st; fetched := fetched st; connsubs := connsubs st; settled_gone := settled_gone st; accreq := accreq st; lastacc := lastacc st; reqpos := reqpos st; resetting := resetting st; due := due st; task_open := task_open st; qexpect := qexpect st; pgets := pgets st; thr := thr st; single := single st; legacy := legacy st; stale := stale st |}.
 Definition set_stream (st : mstate) (s : list (rid * list sevent)) : mstate :=
-  {| clients := clients st; reqs := reqs st; stream := s; ptrs := ptrs st; viols := viols st; pos := pos st; gone := gone st; mqsubs := mqsubs st; fetched := fetched st; connsubs := connsubs st; settled_gone := settled_gone st; accreq := accreq st; lastacc := lastacc st; reqpos := reqpos st; resetting := resetting st; due := due st; task_open := task_open st; qexpect := qexpect st; pgets := pgets st; thr := thr st; single := single st; legacy := legacy st |}.
+  {| clients := clients st; reqs := reqs st; stream := s; ptrs := ptrs st; viols := viols st; pos := pos st; gone := gone st; mqsubs := mqsubs st; fetched := fetched st; connsubs := connsubs st; settled_gone := settled_gone st; accreq := accreq st; lastacc := lastacc st; reqpos := reqpos st; resetting := resetting st; due := due st; task_open := task_open st; qexpect := qexpect st; pgets := pgets st; thr := thr st; single := single st; legacy := legacy st; stale := stale st |}.
 Definition bump (st : mstate) : mstate :=
-  {| clients := clients st; reqs := reqs st; stream := stream st; ptrs := ptrs st; viols := viols st; pos := S (pos st); gone := gone st; mqsubs := mqsubs st; fetched := fetched st; connsubs := connsubs st; settled_gone := settled_gone st; accreq := accreq st; lastacc := lastacc st; reqpos := reqpos st; resetting := resetting st; due := due st; task_open := task_open st; qexpect := qexpect st; pgets := pgets st; thr := thr st; single := single st; legacy := legacy st |}.
+  {| clients := clients st; reqs := reqs st; stream := stream st; ptrs := ptrs st; viols := viols st; pos := S (pos st); gone := gone st; mqsubs := mqsubs st; fetched := fetched st; connsubs := connsubs st; settled_gone := settled_gone st; accreq := accreq st; lastacc := lastacc st; reqpos := reqpos st; resetting := resetting st; due := due st; task_open := task_open st; qexpect := qexpect st; pgets := pgets st; thr := thr st; single := single st; legacy := legacy st; stale := stale st |}.
 
 Definition set_acc (st : mstate) (ar : list (nat * (conn * rid))) (la : list (conn * (rid * option nat))) : mstate :=
   {| clients := clients st; reqs := reqs st; stream := stream st; ptrs := ptrs st; viols := viols st; pos := pos st;
-     gone := gone st; mqsubs := mqsubs st; fetched := fetched st; connsubs := connsubs st; settled_gone := settled_gone st; accreq := ar; lastacc := la; reqpos := reqpos st; resetting := resetting st; due := due st; task_open := task_open st; qexpect := qexpect st; pgets := pgets st; thr := thr st; single := single st; legacy := legacy st |}.
+     gone := gone st; mqsubs := mqsubs st; fetched := fetched st; connsubs := connsubs st; settled_gone := settled_gone st; accreq := ar; lastacc := la; reqpos := reqpos st; resetting := resetting st; due := due st; task_open := task_open st; qexpect := qexpect st; pgets := pgets st; thr := thr st; single := single st; legacy := legacy st; stale := stale st |}.
 Definition set_reqpos (st : mstate) (rp : list (conn * (nat * nat))) : mstate :=
   {| clients := clients st; reqs := reqs st; stream := stream st; ptrs := ptrs st; viols := viols st; pos := pos st;
      gone := gone st; mqsubs := mqsubs st; fetched := fetched st; connsubs := connsubs st; settled_gone := settled_gone st;
-     accreq := accreq st; lastacc := lastacc st; reqpos := rp; resetting := resetting st; due := due st; task_open := task_open st; qexpect := qexpect st; pgets := pgets st; thr := thr st; single := single st; legacy := legacy st |}.
+     accreq := accreq st; lastacc := lastacc st; reqpos := rp; resetting := resetting st; due := due st; task_open := task_open st; qexpect := qexpect st; pgets := pgets st; thr := thr st; single := single st; legacy := legacy st; stale := stale st |}.
 
 Definition stream_of (st : mstate) (r : rid) : list sevent :=
   match lookup r (stream st) with Some s => s | None => [] end.
@@ -187,7 +190,7 @@ Definition deliver (st : mstate) (c : conn) (r : rid) (d : sevent) : mstate :=
       let step p := adv (S (length s)) p in
       let cands' := flat_map step cands in
       match cands' with
-      | [] => put_ptrs (add_viol st VGap c r) c r (seq 0 (S (length s)))   (* report once, then resynchronise *)
+      | [] => put_ptrs (if mem r (stale st) then st else add_viol st VGap c r) c r (seq 0 (S (length s)))   (* report once, then resynchronise *)
       | _ => put_ptrs st c r cands'
       end
   end.
@@ -224,7 +227,7 @@ Definition check_served_hook (st : mstate) (c : conn) (rs : rset) : mstate :=
                                else {| clients := clients s; reqs := reqs s; stream := stream s; ptrs := ptrs s;
                                        viols := viols s ++ [{| v_kind := VServedUnsubscribed; v_c := c; v_r := fst x; v_pos := pos s |}];
                                        pos := pos s; gone := gone s; mqsubs := mqsubs s; fetched := fetched s;
-                                       connsubs := connsubs s; settled_gone := settled_gone s; accreq := accreq s; lastacc := lastacc s; reqpos := reqpos s; resetting := resetting s; due := due s; task_open := task_open s; qexpect := qexpect s; pgets := pgets s; thr := thr s; single := single s; legacy := legacy s |}
+                                       connsubs := connsubs s; settled_gone := settled_gone s; accreq := accreq s; lastacc := lastacc s; reqpos := reqpos s; resetting := resetting s; due := due s; task_open := task_open s; qexpect := qexpect s; pgets := pgets s; thr := thr s; single := single s; legacy := legacy s; stale := stale s |}
                         end) rs st.
 
 Definition merge_into (st : mstate) (c : conn) (rs : rset) : mstate :=
@@ -317,31 +320,34 @@ Definition frame_conn (e : tev) : option conn :=
   end.
 
 Definition set_gone (st : mstate) (c : conn) : mstate :=
-  {| clients := clients st; reqs := reqs st; stream := stream st; ptrs := ptrs st; viols := viols st; pos := pos st; gone := c :: gone st; mqsubs := mqsubs st; fetched := fetched st; connsubs := connsubs st; settled_gone := settled_gone st; accreq := accreq st; lastacc := lastacc st; reqpos := reqpos st; resetting := resetting st; due := due st; task_open := task_open st; qexpect := qexpect st; pgets := pgets st; thr := thr st; single := single st; legacy := legacy st |}.
+  {| clients := clients st; reqs := reqs st; stream := stream st; ptrs := ptrs st; viols := viols st; pos := pos st; gone := c :: gone st; mqsubs := mqsubs st; fetched := fetched st; connsubs := connsubs st; settled_gone := settled_gone st; accreq := accreq st; lastacc := lastacc st; reqpos := reqpos st; resetting := resetting st; due := due st; task_open := task_open st; qexpect := qexpect st; pgets := pgets st; thr := thr st; single := single st; legacy := legacy st; stale := stale st |}.
 
 Definition set_cache (st : mstate) (ms fs : list rid) : mstate :=
   {| clients := clients st; reqs := reqs st; stream := stream st; ptrs := ptrs st; viols := viols st; pos := pos st;
-     gone := gone st; mqsubs := ms; fetched := fs; connsubs := connsubs st; settled_gone := settled_gone st; accreq := accreq st; lastacc := lastacc st; reqpos := reqpos st; resetting := resetting st; due := due st; task_open := task_open st; qexpect := qexpect st; pgets := pgets st; thr := thr st; single := single st; legacy := legacy st |}.
+     gone := gone st; mqsubs := ms; fetched := fs; connsubs := connsubs st; settled_gone := settled_gone st; accreq := accreq st; lastacc := lastacc st; reqpos := reqpos st; resetting := resetting st; due := due st; task_open := task_open st; qexpect := qexpect st; pgets := pgets st; thr := thr st; single := single st; legacy := legacy st; stale := stale st |}.
 Definition set_conns (st : mstate) (cs sg : list conn) : mstate :=
   {| clients := clients st; reqs := reqs st; stream := stream st; ptrs := ptrs st; viols := viols st; pos := pos st;
-     gone := gone st; mqsubs := mqsubs st; fetched := fetched st; connsubs := cs; settled_gone := sg; accreq := accreq st; lastacc := lastacc st; reqpos := reqpos st; resetting := resetting st; due := due st; task_open := task_open st; qexpect := qexpect st; pgets := pgets st; thr := thr st; single := single st; legacy := legacy st |}.
+     gone := gone st; mqsubs := mqsubs st; fetched := fetched st; connsubs := cs; settled_gone := sg; accreq := accreq st; lastacc := lastacc st; reqpos := reqpos st; resetting := resetting st; due := due st; task_open := task_open st; qexpect := qexpect st; pgets := pgets st; thr := thr st; single := single st; legacy := legacy st; stale := stale st |}.
 Definition set_reset (st : mstate) (rs : list (rid * option nat)) (du : list rid) (tk : option rid) : mstate :=
   {| clients := clients st; reqs := reqs st; stream := stream st; ptrs := ptrs st; viols := viols st; pos := pos st;
      gone := gone st; mqsubs := mqsubs st; fetched := fetched st; connsubs := connsubs st; settled_gone := settled_gone st;
-     accreq := accreq st; lastacc := lastacc st; reqpos := reqpos st; resetting := rs; due := du; task_open := tk; qexpect := qexpect st; pgets := pgets st; thr := thr st; single := single st; legacy := legacy st |}.
+     accreq := accreq st; lastacc := lastacc st; reqpos := reqpos st; resetting := rs; due := du; task_open := tk; qexpect := qexpect st; pgets := pgets st; thr := thr st; single := single st; legacy := legacy st; stale := stale st |}.
 Definition set_qexpect (st : mstate) (q : list (rid * nat)) : mstate :=
   {| clients := clients st; reqs := reqs st; stream := stream st; ptrs := ptrs st; viols := viols st; pos := pos st;
      gone := gone st; mqsubs := mqsubs st; fetched := fetched st; connsubs := connsubs st; settled_gone := settled_gone st;
-     accreq := accreq st; lastacc := lastacc st; reqpos := reqpos st; resetting := resetting st; due := due st; task_open := task_open st; qexpect := q; pgets := pgets st; thr := thr st; single := single st; legacy := legacy st |}.
+     accreq := accreq st; lastacc := lastacc st; reqpos := reqpos st; resetting := resetting st; due := due st; task_open := task_open st; qexpect := q; pgets := pgets st; thr := thr st; single := single st; legacy := legacy st; stale := stale st |}.
 
 Definition set_pgets (st : mstate) (p : list (nat * rid)) : mstate :=
-  {| clients := clients st; reqs := reqs st; stream := stream st; ptrs := ptrs st; viols := viols st; pos := pos st; gone := gone st; mqsubs := mqsubs st; fetched := fetched st; connsubs := connsubs st; settled_gone := settled_gone st; accreq := accreq st; lastacc := lastacc st; reqpos := reqpos st; resetting := resetting st; due := due st; task_open := task_open st; qexpect := qexpect st; pgets := p; thr := thr st; single := single st; legacy := legacy st |}.
+  {| clients := clients st; reqs := reqs st; stream := stream st; ptrs := ptrs st; viols := viols st; pos := pos st; gone := gone st; mqsubs := mqsubs st; fetched := fetched st; connsubs := connsubs st; settled_gone := settled_gone st; accreq := accreq st; lastacc := lastacc st; reqpos := reqpos st; resetting := resetting st; due := due st; task_open := task_open st; qexpect := qexpect st; pgets := p; thr := thr st; single := single st; legacy := legacy st; stale := stale st |}.
 
 Definition set_thr (st : mstate) (n : nat) (sg : nat) : mstate :=
-  {| clients := clients st; reqs := reqs st; stream := stream st; ptrs := ptrs st; viols := viols st; pos := pos st; gone := gone st; mqsubs := mqsubs st; fetched := fetched st; connsubs := connsubs st; settled_gone := settled_gone st; accreq := accreq st; lastacc := lastacc st; reqpos := reqpos st; resetting := resetting st; due := due st; task_open := task_open st; qexpect := qexpect st; pgets := pgets st; thr := n; single := sg; legacy := legacy st |}.
+  {| clients := clients st; reqs := reqs st; stream := stream st; ptrs := ptrs st; viols := viols st; pos := pos st; gone := gone st; mqsubs := mqsubs st; fetched := fetched st; connsubs := connsubs st; settled_gone := settled_gone st; accreq := accreq st; lastacc := lastacc st; reqpos := reqpos st; resetting := resetting st; due := due st; task_open := task_open st; qexpect := qexpect st; pgets := pgets st; thr := n; single := sg; legacy := legacy st; stale := stale st |}.
 
 Definition set_legacy (st : mstate) (l : list conn) : mstate :=
-  {| clients := clients st; reqs := reqs st; stream := stream st; ptrs := ptrs st; viols := viols st; pos := pos st; gone := gone st; mqsubs := mqsubs st; fetched := fetched st; connsubs := connsubs st; settled_gone := settled_gone st; accreq := accreq st; lastacc := lastacc st; reqpos := reqpos st; resetting := resetting st; due := due st; task_open := task_open st; qexpect := qexpect st; pgets := pgets st; thr := thr st; single := single st; legacy := l |}.
+  {| clients := clients st; reqs := reqs st; stream := stream st; ptrs := ptrs st; viols := viols st; pos := pos st; gone := gone st; mqsubs := mqsubs st; fetched := fetched st; connsubs := connsubs st; settled_gone := settled_gone st; accreq := accreq st; lastacc := lastacc st; reqpos := reqpos st; resetting := resetting st; due := due st; task_open := task_open st; qexpect := qexpect st; pgets := pgets st; thr := thr st; single := single st; legacy := l; stale := stale st |}.
+
+Definition set_stale (st : mstate) (l : list rid) : mstate :=
+  {| clients := clients st; reqs := reqs st; stream := stream st; ptrs := ptrs st; viols := viols st; pos := pos st; gone := gone st; mqsubs := mqsubs st; fetched := fetched st; connsubs := connsubs st; settled_gone := settled_gone st; accreq := accreq st; lastacc := lastacc st; reqpos := reqpos st; resetting := resetting st; due := due st; task_open := task_open st; qexpect := qexpect st; pgets := pgets st; thr := thr st; single := single st; legacy := legacy st; stale := l |}.
 Definition set_resetting (st : mstate) (rs : list (rid * option nat)) : mstate := set_reset st rs (due st) (task_open st).
 Definition remove_rid (r : rid) (l : list rid) : list rid := filter (fun x => negb (Nat.eqb x r)) l.
 
@@ -467,7 +473,7 @@ Definition step (st : mstate) (e : tev) : mstate :=
                   let '(c, cl) := cc in
                   fold_left (fun s' hd =>
                     let '(r, d) := hd in
-                    if mem r (deleted cl) then s' else
+                    if mem r (deleted cl) || mem r (stale s') then s' else
                     match d, lookup r truth with
                     | RErr _, _ => s'
                     | RModel m, Some (Some (RModel t)) =>
@@ -483,7 +489,7 @@ Definition step (st : mstate) (e : tev) : mstate :=
       let st := fold_left (fun s x =>
                   let '(c, (r, cands)) := x in
                   let str := stream_of s r in
-                  if mem r (deleted (get_client s c)) then s else
+                  if mem r (deleted (get_client s c)) || mem r (stale s) then s else
                   if existsb (fun p => Nat.eqb (skip_marks str p (length str)) (length str)) cands then s
                   else add_viol s VMissingAtQ c r) (ptrs st) st in
       (* C08: the gateway's direct counts equal the ledger *)
@@ -567,6 +573,7 @@ Definition step (st : mstate) (e : tev) : mstate :=
       let st := set_pgets st (filter (fun x => negb (Nat.eqb (fst x) n)) (pgets st)) in
       (* the answer to a reset re-fetch updates a loaded resource; it does not load one whose initial get failed *)
       let is_reset := existsb (fun x => Nat.eqb (fst x) r && match snd x with Some m => Nat.eqb m n | None => false end) (resetting st) in
+      let st := set_stale st (filter (fun x => negb (Nat.eqb x r)) (stale st)) in   (* fetched successfully again *)
       let st := if mem (base_of r) (mqsubs st) && (negb is_reset || mem r (fetched st))
                 then set_cache st (mqsubs st) (r :: remove_rid r (fetched st)) else st in
       if existsb (fun x => Nat.eqb (fst x) r && match snd x with Some m => Nat.eqb m n | None => false end) (resetting st)
@@ -575,6 +582,10 @@ Definition step (st : mstate) (e : tev) : mstate :=
       else st
   | TMqResp n r o =>
       let st := set_pgets st (filter (fun x => negb (Nat.eqb (fst x) n)) (pgets st)) in
+      (* a re-fetch that fails (time-out, error other than not-found) is a service fault *)
+      let st := if existsb (fun x => Nat.eqb (fst x) r && match snd x with Some m => Nat.eqb m n | None => false end) (resetting st)
+                   && match o with OErr 4 => false | OErr _ => true | _ => false end
+                then set_stale st (r :: stale st) else st in
       (* a re-fetch answered system.notFound deletes the cached resource *)
       let st := match o with
                 | OErr 4 => if existsb (fun x => Nat.eqb (fst x) r) (resetting st) then set_cache st (mqsubs st) (remove_rid r (fetched st)) else st
